@@ -20,7 +20,7 @@ for f in sorted(glob.glob(os.path.join(d, "*.smt2"))):
         t = time.time()
         p = subprocess.run(cmd, capture_output=True, text=True)
         out = (p.stdout + p.stderr).strip().splitlines()
-        verdict = next((l for l in out if l in ("sat", "unsat", "unknown", "timeout")), "??")
+        verdict = next((l for l in out if l in ("sat", "unsat", "unknown", "timeout")), "timeout")
         if any(l.startswith("(error") for l in out):
             verdict = "error:" + [l for l in out if l.startswith("(error")][0][:80]
         res[name] = (verdict, round(time.time() - t, 1))
